@@ -1,5 +1,6 @@
 import TsVerif.C01.Judge
 import TsVerif.C01.Stream
+import TsVerif.C01.Lemmas
 import TsVerif.C10.Model
 /-!
 # C01 — Incremental re-parse equals parsing the new text from scratch
@@ -32,9 +33,14 @@ Clause map
   restricted to unreached leaves lexed in the same mode, every deterministic driver (any function
   of the token stream, in particular any LR driver) ends in the same state incrementally and from
   scratch, for every `LexLocal` lexer.
-* whole-tree equality with subtree-level reuse `incr_eq_scratch`, `incr_error_iff` — OPEN (needs
-  the LR driver model over the dumped table and `ReduceStable`, DESIGN.md §7 C01 stage 2); on the
-  implementation it is DECIDED per case by `judge` (Judge.lean) on the two real trees.
+* stage 2, restricted — `subtree_reuse_sound`, `incr_eq_scratch_subtree` (LR.lean, Lemmas.lean):
+  over any deterministic table, pushing an old subtree that was built from state `s` out of tokens
+  `w` with follower `x` is exactly what the from-scratch machine computes from any stack with top
+  state `s` on `w · x · anything` (frame and unread-input independence), so both parses end in the
+  same stack.
+* the unrestricted `incr_eq_scratch` (GLR versions, error recovery, non-terminal extras, the dumped
+  table as `T`, the replayed run as the certificate `hbuilt`) and `incr_error_iff` — OPEN; on the
+  implementation whole-tree equality is DECIDED per case by `judge` (Judge.lean).
 * Genuine defect found by the judge (see the last section): a column-dependent token is reused
   although an included-range difference lies earlier on its line.  `reuseGate` therefore carries
   the input `lineDiff` = outcome of the extra test of the proposed repair (`lineDiffOf`), `false`
@@ -469,6 +475,56 @@ theorem incr_eq_scratch_tokens {σ μ : Type} [DecidableEq μ]
   rw [lexReuse_eq_lexAll]
   intro m p k hk
   exact reuseOracle_sound lex hl text ins start oldEnd h1 h2 old hold m p k hk
+
+/-! ## Stage 2 (restricted): subtree-level reuse over a deterministic table -/
+
+/-- `subtree_reuse_sound`: let the machine, started in state `s` on an EMPTY frame, turn the
+tokens `w` followed by the token `x` into the single subtree `t` for `A` in `k` steps (this is how
+the old parse built `t`: `ts_subtree_parse_state(t) = s`, follower `x`).  Then in ANY stack whose
+top state is `s`, on any input that starts with the same `w` and `x`, the same `k` steps of the
+from-scratch machine produce exactly the stack that the reuse shortcut produces by pushing `t`
+with the goto state — the stack below and the input behind `x` are irrelevant. -/
+theorem subtree_reuse_sound (T : LR.Table) (s A k : Nat) (w : List Tok) (x : Tok) (t : LR.PTree)
+    (hbuilt : LR.steps T s k [] (w ++ [x]) = some ([(T.goto s A, t)], [x]))
+    (bottom : Nat) (base : LR.Stack) (hs : LR.top bottom base = s) (rest : List Tok) :
+    LR.steps T bottom k base (w ++ x :: rest) = some (LR.reuseStep T bottom base A t, x :: rest) := by
+  have h1 := LR.steps_append T s rest k [] (w ++ [x]) _ _ hbuilt
+  rw [← hs] at h1
+  have h2 := LR.steps_frame T bottom base k [] _ _ _ h1
+  simp only [List.nil_append, List.append_assoc, List.cons_append] at h2
+  rw [h2]
+  simp [LR.reuseStep, hs]
+
+/-- `incr_eq_scratch_subtree` (restricted stage 2): a deterministic LR parse that takes the
+shortcut — reuse a subtree whose parse state matches the current state and whose token sequence
+and follower are unchanged (`relex_*`, and `ts_parser__breakdown_top_of_stack` when the follower
+is not reused) — continues from exactly the configuration the from-scratch parse reaches, so both
+end in the same stack (the same tree), whatever follows.  Not covered: GLR, error recovery,
+fragile nodes (refused by the gate), non-terminal extras. -/
+theorem incr_eq_scratch_subtree (T : LR.Table) (s A k : Nat) (w : List Tok) (x : Tok) (t : LR.PTree)
+    (hbuilt : LR.steps T s k [] (w ++ [x]) = some ([(T.goto s A, t)], [x]))
+    (bottom : Nat) (base : LR.Stack) (hs : LR.top bottom base = s) (rest : List Tok) (m : Nat) :
+    LR.run T bottom (k + m) base (w ++ x :: rest) =
+      LR.run T bottom m (LR.reuseStep T bottom base A t) (x :: rest) :=
+  LR.run_steps T bottom m k base _ _ _ (subtree_reuse_sound T s A k w x t hbuilt bottom base hs rest)
+
+/-- A table for `S → A c`, `A → a b` (tokens a=1, b=2, c=3; non-terminal A=10): the hypothesis of
+`subtree_reuse_sound` holds for `w = [a, b]`, `x = c`, `s = 0`, `k = 3`. -/
+def toyTable : LR.Table :=
+  { action := fun st tok =>
+      match st, tok with
+      | 0, 1 => .shift 1
+      | 1, 2 => .shift 2
+      | 2, _ => .reduce 10 2
+      | 3, 3 => .shift 4
+      | 5, 1 => .shift 1        -- another context with the same top state behaviour
+      | _, _ => .error
+    goto := fun st nt => if nt = 10 then (if st = 0 then 3 else 6) else 0 }
+
+def tk (sym : Nat) : Tok := { sym := sym, pad := 0, size := 1, la := 1 }
+
+example : LR.steps toyTable 0 3 [] ([tk 1, tk 2] ++ [tk 3]) =
+    some ([(toyTable.goto 0 10, LR.PTree.node 10 [.leaf (tk 1), .leaf (tk 2)])], [tk 3]) := by rfl
 
 /-! ## Non-vacuity -/
 
